@@ -148,13 +148,22 @@ impl HtmlFilterBodyAction {
     }
 
     pub fn end(&mut self) -> Vec<u8> {
-        let mut to_return = self.last_buffer.clone();
+        let mut buffers = Vec::new();
         let mut buffer = self.current_buffer.as_ref();
 
-        while buffer.is_some() {
-            to_return.extend_from_slice(buffer.unwrap().buffer.as_bytes());
-            buffer = buffer.unwrap().previous.as_ref();
+        while let Some(link) = buffer {
+            buffers.push(link.buffer.as_bytes());
+            buffer = link.previous.as_ref();
         }
+
+        // Keep the order of the stream: outermost buffered element first, token held back last
+        let mut to_return = Vec::new();
+
+        for buffer in buffers.into_iter().rev() {
+            to_return.extend_from_slice(buffer);
+        }
+
+        to_return.extend_from_slice(self.last_buffer.as_slice());
 
         to_return
     }
